@@ -226,6 +226,20 @@ class RegexInfo:
         self.ngroups = self.tree.state.groups - 1
         # branch-level optionality: groups inside a BRANCH alternative may not participate
         self._mark_branch_optional(list(self.tree), False)
+        # a pattern that is one alternation whose alternatives are each exactly one capture group: exactly one of them participates
+        self.exclusive = []
+        items = [(op, av) for op, av in self.tree if op is not sc.AT]
+        if len(items) == 1 and items[0][0] is sc.BRANCH:
+            gids = []
+            for alt in items[0][1][1]:
+                alt_items = [(op, av) for op, av in alt if op is not sc.AT]
+                if len(alt_items) == 1 and alt_items[0][0] is sc.SUBPATTERN and alt_items[0][1][0] is not None:
+                    gids.append(alt_items[0][1][0])
+                else:
+                    gids = None
+                    break
+            if gids and len(gids) >= 2:
+                self.exclusive.append(tuple(gids))
 
     def _mark_branch_optional(self, seq, opt):
         for op, av in seq:
